@@ -5,11 +5,18 @@ resurrect a purged dataset.
 
 All theorems quantify over EVERY history `ops` (`Model/Transfer.lean : Op`): recv_loop iterations
 fed with any frames (taken or duplicated, any order) and any commands / purges, pool jobs in any
-order, clock advances, frame drops, controller receptions.  They are proved for the larger class of
-all interleavings of micro steps (`MStar`) and transferred by `Aux.run_mstar`.
+order, run to their end or stopped between their stages, with or without shm / socket faults, iterations
+of the executor's loop, clock advances, frame drops, controller receptions.  The invariant-based ones
+(single copy, bytes, announced once, no resurrection, retry (b)(c), failures forwarded, purge filter (a)) are
+proved for the larger class of all interleavings of micro steps (`MStar`) and transferred by
+`Aux.run_mstar`.  `c07_purge_waits` is different in kind: at the micro level the blocking `wait` of the
+purge branch is a guard of the step (`MStep.handle`), so the theorem's content is the refinement — the
+operation `tick`, which runs the code's `wait(ALL_COMPLETED)` + `maybe_clean` before the purge body, leaves
+no future of the dataset behind whatever stage the pool jobs were at (`Aux.handleAll_mstar`).
 -/
 import EkwVerif.Lemmas.Transfer
 import EkwVerif.Lemmas.TransferRetry
+import EkwVerif.Lemmas.TransferProg
 
 namespace EkwVerif.Transfer
 open Aux
@@ -24,6 +31,8 @@ structure Fresh (w : World) : Prop where
   sock : ∀ h, (w.hosts h).sock = []
   inbox : ∀ h, (w.hosts h).inbox = []
   awaiting : ∀ h, (w.hosts h).awaiting = []
+  allocd : ∀ h, (w.hosts h).allocd = []
+  mbox : ∀ h, (w.hosts h).mbox = []
   copies : ∀ h ds, copies (w.hosts h).store ds ≤ 1
 
 /-- host `h` holds `ds` at the start -/
@@ -32,7 +41,7 @@ def hadAt (w0 : World) (h ds : Nat) : Bool := (lookup (w0.hosts h).store ds).isS
 namespace Aux
 
 theorem inv_fresh (w0 : World) (hf : Fresh w0) : Inv (hadAt w0) w0 := by
-  refine ⟨?_, ?_, ?_, ?_, ?_, ?_, ?_, ?_⟩
+  refine ⟨?_, ?_, ?_, ?_, ?_, ?_, ?_, ?_, ?_, ?_, ?_, ?_, ?_⟩
   · intro h ds; simp [hf.log, storedCnt, hadN]; split <;> omega
   · intro h ds hpos
     left
@@ -42,10 +51,15 @@ theorem inv_fresh (w0 : World) (hf : Fresh w0) : Inv (hadAt w0) w0 := by
     · simp [hh] at hpos
   · intro h ds hd; simp [hf.invalid] at hd
   · intro h ds hd; simp [hf.invalid] at hd
-  · intro h ds; simp [hf.log, storedCnt, annCnt]
+  · intro h ds; simp [hf.log, hf.futs, storedCnt, annCnt, annFailCnt]
   · exact hf.copies
   · intro h ds k hk; simp [hf.log] at hk
   · intro h ds k hk; simp [hf.log] at hk
+  · intro h ds hd; simp [hf.allocd] at hd
+  · intro h ds; simp [hf.futs]
+  · intro h ds; simp [hf.log, hf.mbox, ctrlPubCnt, annCnt, pubPending]
+  · intro h; simp [hf.log, hf.mbox, ctrlFailCnt, failCnt, failPending]
+  · intro h ds b hb; simp [hf.log, lastEx] at hb
 
 theorem cons_fresh (truth : Nat → String × String) (w0 : World) (hf : Fresh w0)
     (ht : ∀ h, ∀ e ∈ (w0.hosts h).store, e.2 = truth e.1) : Cons truth w0 := by
@@ -92,27 +106,35 @@ theorem c07_bytes_equal (truth : Nat → String × String) (w0 : World) (hf : Fr
   · intro h c b f hm; exact hc.log _ hm
   · intro p hm; exact hc.log _ hm
 
-/-- **announced once.** The number of `DatasetPublished` a host emits for a dataset equals the number
-of its successful stores (one per arrival), is at most one, and is zero for a host that already had the
-dataset (redundant transfer). -/
+/-- **announced once.** The data server of `h` pushes `DatasetPublished(ds)` to its executor at most once,
+never more often than a copy of `ds` was written and closed there, never for a dataset `h` already had
+(redundant transfer); the exact balance is: stores = announcements + failure reports raised at the
+announce stage + store jobs that sit between `buf.close()` and the callback.  The executor forwards
+every announcement to the controller exactly once and invents none (`ctrlPub` + still queued = announced). -/
 theorem c07_announced_once (w0 : World) (hf : Fresh w0) (ops : List Op) (h ds : Nat) :
-    annCnt (run w0 ops).log h ds = storedCnt (run w0 ops).log h ds ∧
+    annCnt (run w0 ops).log h ds ≤ storedCnt (run w0 ops).log h ds ∧
     annCnt (run w0 ops).log h ds ≤ 1 ∧
-    (hadAt w0 h ds = true → annCnt (run w0 ops).log h ds = 0) := by
+    (hadAt w0 h ds = true → annCnt (run w0 ops).log h ds = 0) ∧
+    storedCnt (run w0 ops).log h ds = annCnt (run w0 ops).log h ds + annFailCnt (run w0 ops).log h ds +
+      ((run w0 ops).hosts h).futs.countP (atStage2 ds) ∧
+    ctrlPubCnt (run w0 ops).log h ds + pubPending ((run w0 ops).hosts h).mbox ds = annCnt (run w0 ops).log h ds := by
   have hi := inv_run w0 hf ops
-  have h1 := hi.ann_eq h ds
+  have h1 := hi.ann_bal h ds
   have h2 := hi.cnt_le h ds
-  refine ⟨h1, by omega, ?_⟩
+  refine ⟨by omega, by omega, ?_, h1, hi.pub_bal h ds⟩
   intro hh
   simp [hadN, hh] at h2
   omega
 
-/-- **no resurrection.** Once `ds` has been purged at `h` (a `purged` event is in the trace, equivalently
-`ds ∈ invalid`), then whatever happens afterwards — late payloads, duplicates, retries, new redundant
-transfers — no store of `ds` happens at `h`, the store does not contain it, and it stays invalid. -/
+/-- **no resurrection.** Once the data server of `h` has handled a purge of `ds` (a `purged` event is in the
+trace: the shm purge request was made — whether or not `h` held `ds` at that moment, an unknown key is not
+an error — and `ds ∈ invalid`), then whatever happens afterwards — late payloads, duplicates, retries, new
+redundant transfers, faults — no store of `ds` happens at `h`, nothing is announced, the store does not contain
+it, no allocation of it is open, and it stays invalid. -/
 theorem c07_no_resurrection (w0 : World) (hf : Fresh w0) (ops later : List Op) (h ds k : Nat)
     (hp : Event.purged h ds k ∈ (run w0 ops).log) :
     storedCnt (run w0 (ops ++ later)).log h ds = storedCnt (run w0 ops).log h ds ∧
+    annCnt (run w0 (ops ++ later)).log h ds = annCnt (run w0 ops).log h ds ∧
     lookup ((run w0 (ops ++ later)).hosts h).store ds = none ∧
     ds ∈ ((run w0 (ops ++ later)).hosts h).invalid := by
   have hi := inv_run w0 hf ops
@@ -120,7 +142,19 @@ theorem c07_no_resurrection (w0 : World) (hf : Fresh w0) (ops later : List Op) (
   rw [run_append]
   have hs := purged_mstar (run_mstar (run w0 ops) later) hi h ds hd
   have hi2 := inv_mstar (run_mstar (run w0 ops) later) hi
-  exact ⟨hs.2.1, hi2.inv_nostore h ds hs.1, hs.1⟩
+  exact ⟨hs.2.1, hs.2.2.2.2, hi2.inv_nostore h ds hs.1, hs.1⟩
+
+/-- **the race: the purge overtakes the payload.** If the purge of `ds` was handled at `h` when `h` had never
+held or stored `ds` (the payload of the transfer was still on its way), then `h` never stores, announces or
+holds `ds`: the late payload is discarded. -/
+theorem c07_no_resurrection_race (w0 : World) (hf : Fresh w0) (ops later : List Op) (h ds k : Nat)
+    (hp : Event.purged h ds k ∈ (run w0 ops).log)
+    (hnot : hadAt w0 h ds = false) (hnone : storedCnt (run w0 ops).log h ds = 0) :
+    storedCnt (run w0 (ops ++ later)).log h ds = 0 ∧ annCnt (run w0 (ops ++ later)).log h ds = 0 ∧
+    lookup ((run w0 (ops ++ later)).hosts h).store ds = none := by
+  have h1 := c07_no_resurrection w0 hf ops later h ds k hp
+  have h2 := (c07_announced_once w0 hf (ops ++ later) h ds).1
+  refine ⟨by omega, by omega, h1.2.2.1⟩
 
 /-- **purge waits.** Every shm purge of a dataset happens at a moment when no future of that dataset
 (send = read in progress, or store) is left in `futs_in_progress`. -/
@@ -158,7 +192,133 @@ theorem c07_retry_until_acked (w0 : World) (hf : Fresh w0) (ops : List Op) (h : 
     have hi := inv_run w0 hf ops
     rw [run_append]
     have := purged_mstar (run_mstar (run w0 ops) later) hi h ds (hi.purged_inv h ds k hp)
-    exact ⟨this.2.2.1, this.2.2.2⟩
+    exact ⟨this.2.2.1, this.2.2.2.1⟩
+
+/-- **exactly one copy, existence half (1): a payload that gets through is stored and announced.**
+In any reachable state in which the data server of `h` is alive and idle (nothing in its socket, inbox, pool,
+nothing to confirm), a payload frame for `h` it has not seen yet (its Syn is not in `Listener.acked`) of a
+dataset that is neither purged nor half-written there: after the iteration that reads the frame and the store
+job, `h` holds the dataset, the Syn has been acknowledged, and — if `h` did not hold it before — the copy is the
+payload's bytes and deser_fun, it was written once and announced to the executor with the payload's transmit
+index.  (`_partial`: the hosts are quiescent; for busy hosts the clause is carried by the safety invariants and,
+per run, by the oracle's loss-free drain.) -/
+theorem c07_delivered_is_stored_partial (w0 : World) (ops : List Op) (h i si sa : Nat) (p : Payload) (sched : List Nat)
+    (hh : h ≠ 0) (hc : ((run w0 ops).hosts h).crashed = false) (hs : ((run w0 ops).hosts h).sock = [])
+    (hin : ((run w0 ops).hosts h).inbox = []) (hfu : ((run w0 ops).hosts h).futs = [])
+    (haw : ((run w0 ops).hosts h).awaiting = [])
+    (hget : (run w0 ops).net[i]? = some (.data h si sa p)) (hack : (si, sa) ∉ ((run w0 ops).hosts h).acked)
+    (hinv : p.ds ∉ ((run w0 ops).hosts h).invalid) (hal : p.ds ∉ ((run w0 ops).hosts h).allocd) :
+    (lookup ((run w0 (ops ++ [.tick h [.frame i false] sched, .job h 0])).hosts h).store p.ds).isSome ∧
+    Frame.plain sa (.ack si) ∈ (run w0 (ops ++ [.tick h [.frame i false] sched, .job h 0])).net ∧
+    (lookup ((run w0 ops).hosts h).store p.ds = none →
+      lookup ((run w0 (ops ++ [.tick h [.frame i false] sched, .job h 0])).hosts h).store p.ds = some (p.value, p.deser) ∧
+      Event.stored h p.ds p.confirmIdx p.value p.deser ∈ (run w0 (ops ++ [.tick h [.frame i false] sched, .job h 0])).log ∧
+      Event.announced h p.ds p.confirmIdx ∈ (run w0 (ops ++ [.tick h [.frame i false] sched, .job h 0])).log ∧
+      EMsg.pub p.ds p.confirmIdx ∈ ((run w0 (ops ++ [.tick h [.frame i false] sched, .job h 0])).hosts h).mbox) := by
+  rw [run_append]
+  exact deliver_completes (run w0 ops) h i si sa p sched hh hc hs hin hfu haw hget hack hinv hal
+
+/-- **existence half (2): an unconfirmed transfer completes as soon as the network lets one copy of the payload
+and of the confirmation through.**  Source `s` alive and idle with exactly the transfer `c` (index `idx`, to host
+`t`) unconfirmed and overdue, holding the dataset; target `t` alive and idle, has not seen this transfer's Syn,
+does not hold the dataset, has neither purged it nor an allocation of it open.  Then five steps — the source's next
+iteration (which re-submits the send, `c07_retry_until_acked` (a)), the send job, the target's iteration reading the
+new frame, the store job, the source's iteration reading the ack — end with the target holding exactly the
+source's bytes and deser_fun, the arrival announced with index `idx`, and `idx` confirmed at the source (after
+which, by (b), it is never re-sent).  Frames already on the wire are untouched (any loss / delay of OTHER frames). -/
+theorem c07_completes_partial (w0 : World) (ops : List Op) (s t idx : Nat) (c : Cmd) (at_ : Nat) (b f : String)
+    (hs0 : s ≠ 0) (ht0 : t ≠ 0) (hst : s ≠ t)
+    (hcs : c.source = s) (hct : c.target = t) (hcd : c.daddr = t) (hci : c.idx = idx)
+    (hsc : ((run w0 ops).hosts s).crashed = false) (hss : ((run w0 ops).hosts s).sock = [])
+    (hsi : ((run w0 ops).hosts s).inbox = []) (hsf : ((run w0 ops).hosts s).futs = [])
+    (hsa : ((run w0 ops).hosts s).awaiting = [(idx, c, some at_)])
+    (hdue : 0 < at_ ∧ at_ + grace < (run w0 ops).now) (hna : idx ∉ ((run w0 ops).hosts s).acks)
+    (hsv : c.ds ∉ ((run w0 ops).hosts s).invalid) (hsl : lookup ((run w0 ops).hosts s).store c.ds = some (b, f))
+    (htc : ((run w0 ops).hosts t).crashed = false) (hts : ((run w0 ops).hosts t).sock = [])
+    (hti : ((run w0 ops).hosts t).inbox = []) (htf : ((run w0 ops).hosts t).futs = [])
+    (hta : ((run w0 ops).hosts t).awaiting = []) (hack : (idx, s) ∉ ((run w0 ops).hosts t).acked)
+    (htv : c.ds ∉ ((run w0 ops).hosts t).invalid) (htal : c.ds ∉ ((run w0 ops).hosts t).allocd)
+    (htl : lookup ((run w0 ops).hosts t).store c.ds = none) :
+    lookup ((run w0 (ops ++ completion s t (run w0 ops).net.length)).hosts t).store c.ds = some (b, f) ∧
+    Event.announced t c.ds idx ∈ (run w0 (ops ++ completion s t (run w0 ops).net.length)).log ∧
+    idx ∈ ((run w0 (ops ++ completion s t (run w0 ops).net.length)).hosts s).acks := by
+  rw [run_append]
+  exact completes (run w0 ops) s t idx c at_ b f hs0 ht0 hst hcs hct hcd hci hsc hss hsi hsf hsa hdue hna hsv hsl
+    htc hts hti htf hta hack htv htal htl
+
+/-- without "one copy gets through" there is nothing to prove: a network that drops the payload leaves the target
+empty (the data server then retries for ever, which the property allows) -/
+theorem c07_completes_full_fails :
+    ¬ (∀ (w0 : World) (_ : Fresh w0) (ops : List Op) (c : Cmd) (b f : String),
+        Event.sent c.source c b f ∈ (run w0 ops).log → (lookup ((run w0 ops).hosts c.target).store c.ds).isSome) := by
+  intro hall
+  have := hall { hosts := fun h => if h = 1 then { store := [(0, "aa", "df0")] } else {} }
+    (by refine ⟨rfl, rfl, ?_, ?_, ?_, ?_, ?_, ?_, ?_, ?_⟩ <;> intro h <;> (try intro ds) <;> simp only [] <;> split <;>
+          simp [copies, List.filter_cons] <;> split <;> simp)
+    [.tick 1 [.msg (.cmd ⟨1, 2, 2, 0, 0⟩)] [], .job 1 0, .drop 0] ⟨1, 2, 2, 0, 0⟩ "aa" "df0" (by decide)
+  revert this
+  decide
+
+/-- **failures are passed on.** Every DatasetTransmitFailure the data server of `h` raises — a send job
+whose `get` or `send_data` raised, a store job whose allocate (memory pressure), close or announce raised, a
+Future that raised (`buf.close()` in the `finally` of `send_payload`) and was reported by `maybe_clean` — is
+put on the executor's socket and forwarded to the controller exactly once: forwarded + still queued = raised. -/
+theorem c07_failures_forwarded (w0 : World) (hf : Fresh w0) (ops : List Op) (h : Nat) :
+    ctrlFailCnt (run w0 ops).log h + failPending ((run w0 ops).hosts h).mbox = failCnt (run w0 ops).log h :=
+  (inv_run w0 hf ops).fail_bal h
+
+/-- a Future that raised is reported by the next `maybe_clean` and its transfer is NOT retried: the entry of
+`awaiting_confirmation` keeps its `-1` (here: `none`) stamp for ever (decided on the witness `exExc`). -/
+def exExc : List Op :=
+  [.tick 1 [.msg (.cmd ⟨1, 2, 2, 0, 0⟩)] [], .jobstep 1 0 .none, .jobstep 1 0 .closeExc, .drop 0,
+   .tick 1 [] [], .adv 9000, .tick 1 [] [], .adv 9000, .tick 1 [] []]
+
+/-- **the executor's purge filter.**
+(a) In every reachable state: if the last thing the executor of `h` did about `ds` was to tell the controller
+that it is there (`ctrlPub`), `ds` is in `Executor.datasets`; if it was to forward its purge, it is not.
+(b) A purge from the controller for a dataset in `Executor.datasets` is forwarded: after the executor's next
+iteration the purge sits in the data server's socket, `ds` has left `Executor.datasets`, nothing else changed
+in the store.  (The controller purges a dataset only at a host that announced it: C04.) -/
+theorem c07_exec_purge_filter (w0 : World) (hf : Fresh w0) (ops : List Op) (h ds : Nat) :
+    (∀ b, lastEx (run w0 ops).log h ds = some b → (ds ∈ ((run w0 ops).hosts h).published ↔ b = true)) ∧
+    (ds ∈ ((run w0 ops).hosts h).published → ((run w0 ops).hosts h).mbox = [] →
+      let w' := run w0 (ops ++ [.etick h [ds]])
+      Event.purgeFwd h ds ∈ w'.log ∧ ds ∉ (w'.hosts h).published ∧
+      (w'.hosts h).sock = ((run w0 ops).hosts h).sock ++ [Frame.plain h (Msg.purge ds)] ∧
+      (w'.hosts h).store = ((run w0 ops).hosts h).store) := by
+  refine ⟨(inv_run w0 hf ops).pub_hist h ds, ?_⟩
+  intro hpub hmb
+  rw [run_append]
+  generalize run w0 ops = w at hpub hmb
+  simp [run, step, etick, feedE, injectE, execAll, execHandle, World.setHost, World.emit, hmb, hpub]
+
+/-- **purge, end to end.** The controller's purge of `ds` arrives at the executor of `h`, which has `ds` in
+`Executor.datasets` (it saw it published: what the controller's purge presupposes, C04), its socket otherwise
+empty; the data server is alive with empty socket and inbox — whatever its pool is doing.  Then the executor's
+iteration followed by the data server's iteration issues the shm purge (after waiting for every job), and from
+then on, whatever arrives, nothing of `ds` is stored, announced or held at `h`.  (`_partial`: the hypothesis
+`ds ∈ Executor.datasets`; without it the executor drops the purge, see `c07_purge_end_to_end_full_fails`.) -/
+theorem c07_purge_end_to_end_partial (w0 : World) (hf : Fresh w0) (ops later : List Op) (h ds : Nat) (sched : List Nat)
+    (hpub : ds ∈ ((run w0 ops).hosts h).published) (hmb : ((run w0 ops).hosts h).mbox = [])
+    (hc : ((run w0 ops).hosts h).crashed = false) (hs : ((run w0 ops).hosts h).sock = [])
+    (hin : ((run w0 ops).hosts h).inbox = []) :
+    (∃ k, Event.purged h ds k ∈ (run w0 (ops ++ [.etick h [ds], .tick h [] sched])).log) ∧
+    storedCnt (run w0 (ops ++ [.etick h [ds], .tick h [] sched] ++ later)).log h ds =
+      storedCnt (run w0 (ops ++ [.etick h [ds], .tick h [] sched])).log h ds ∧
+    annCnt (run w0 (ops ++ [.etick h [ds], .tick h [] sched] ++ later)).log h ds =
+      annCnt (run w0 (ops ++ [.etick h [ds], .tick h [] sched])).log h ds ∧
+    lookup ((run w0 (ops ++ [.etick h [ds], .tick h [] sched] ++ later)).hosts h).store ds = none := by
+  have hp : ∃ k, Event.purged h ds k ∈ (run w0 (ops ++ [.etick h [ds], .tick h [] sched])).log := by
+    rw [run_append]
+    generalize run w0 ops = w at hpub hmb hc hs hin
+    have he : ((etick h [ds] w).hosts h).crashed = false ∧
+        ((etick h [ds] w).hosts h).sock = [Frame.plain h (Msg.purge ds)] ∧ ((etick h [ds] w).hosts h).inbox = [] := by
+      simp [etick, feedE, injectE, execAll, execHandle, World.setHost, World.emit, hmb, hpub, hc, hs, hin]
+    simp only [run, List.foldl_cons, List.foldl_nil, step]
+    exact tick_handles_purge h ds sched (etick h [ds] w) he.1 he.2.1 he.2.2
+  obtain ⟨k, hk⟩ := hp
+  have := c07_no_resurrection w0 hf (ops ++ [.etick h [ds], .tick h [] sched]) later h ds k hk
+  exact ⟨⟨k, hk⟩, this.1, this.2.1, this.2.2.1⟩
 
 /-! ### non-vacuity: a concrete history exercising every hypothesis -/
 
@@ -166,7 +326,7 @@ theorem c07_retry_until_acked (w0 : World) (hf : Fresh w0) (ops : List Op) (h : 
 def exW0 : World := { hosts := fun h => if h = 1 then { store := [(0, "aa", "df0")] } else {} }
 
 theorem exFresh : Fresh exW0 := by
-  refine ⟨rfl, rfl, ?_, ?_, ?_, ?_, ?_, ?_⟩ <;> intro h <;> (try intro ds) <;> simp only [exW0] <;> split <;>
+  refine ⟨rfl, rfl, ?_, ?_, ?_, ?_, ?_, ?_, ?_, ?_⟩ <;> intro h <;> (try intro ds) <;> simp only [exW0] <;> split <;>
     simp [copies, List.filter_cons] <;> split <;> simp
 
 def exT : Cmd := ⟨1, 2, 2, 0, 0⟩      -- transfer 1 → 2, idx 0
@@ -212,10 +372,10 @@ theorem exTruthOk : ∀ h, ∀ e ∈ (exW0.hosts h).store, e.2 = exTruth e.1 := 
 
 example : ∀ p, Event.ctrlGot p ∈ (run exW0 exOps).log → (p.value, p.deser) = exTruth p.ds :=
   (c07_bytes_equal exTruth exW0 exFresh exTruthOk exOps).2.2.2
-example : annCnt (run exW0 exRedundant).log 2 0 = storedCnt (run exW0 exRedundant).log 2 0 :=
+example : annCnt (run exW0 exRedundant).log 2 0 ≤ storedCnt (run exW0 exRedundant).log 2 0 :=
   (c07_announced_once exW0 exFresh exRedundant 2 0).1
 example : hadAt exW0 1 0 = true ∧ annCnt (run exW0 exOps).log 1 0 = 0 :=
-  ⟨by decide, (c07_announced_once exW0 exFresh exOps 1 0).2.2 (by decide)⟩
+  ⟨by decide, (c07_announced_once exW0 exFresh exOps 1 0).2.2.1 (by decide)⟩
 
 /-- a purge at the source arriving while the send job of a transfer is still queued: the purge branch
 runs the job first (the payload is sent), then purges -/
@@ -237,5 +397,87 @@ example : resubmitCnt (run exW0 (exRetry ++ [.tick 1 [] []])).log 1 0 = 1 := by 
 def exAcked : List Op := exRetry ++ [.tick 1 [] [], .job 1 0, .tick 2 [.frame 0 false] [], .tick 1 [.frame 0 false] []]
 example : 0 ∈ ((run exW0 exAcked).hosts 1).acks := by decide
 example : resubmitCnt (run exW0 (exAcked ++ [.adv 9000, .tick 1 [] [], .adv 9000, .tick 1 [] []])).log 1 0 = 1 := by decide
+
+/-- … and fails without it: a purge for a dataset the executor has not seen published is dropped ("unexpected
+purge"), the data server never hears of it, and a payload arriving later is stored and announced. -/
+def exDropped : List Op :=
+  [.etick 2 [0], .tick 2 [] [],
+   .tick 1 [.msg (.cmd ⟨1, 2, 2, 0, 0⟩)] [], .job 1 0, .tick 2 [.frame 0 false] [], .job 2 0]
+
+theorem c07_purge_end_to_end_full_fails :
+    ¬ (∀ (w0 : World) (_ : Fresh w0) (pre later : List Op) (h ds : Nat),
+        storedCnt (run w0 (pre ++ [.etick h [ds], .tick h [] []] ++ later)).log h ds =
+          storedCnt (run w0 (pre ++ [.etick h [ds], .tick h [] []])).log h ds) := by
+  intro hall
+  have := hall exW0 exFresh [] [.tick 1 [.msg (.cmd ⟨1, 2, 2, 0, 0⟩)] [], .job 1 0, .tick 2 [.frame 0 false] [], .job 2 0] 2 0
+  revert this
+  decide
+
+
+/-! ### non-vacuity of the new clauses -/
+
+/-- the race of the property text: the purge reaches host 2 before the payload of transfer 0 was stored there
+(host 2 never held dataset 0): shm is asked to purge an unknown key, which is not an error; the late payload
+is ignored -/
+def exRacePre : List Op := [.tick 1 [.msg (.cmd exT)] [], .job 1 0, .tick 2 [.msg (.purge 0)] []]
+def exRaceLate : List Op := [.tick 2 [.frame 0 false] [], .job 2 0]
+example : Event.purged 2 0 0 ∈ (run exW0 exRacePre).log ∧ ((run exW0 exRacePre).hosts 2).crashed = false ∧
+    0 ∈ ((run exW0 exRacePre).hosts 2).invalid := by decide
+example : Event.ignored 2 0 0 ∈ (run exW0 (exRacePre ++ exRaceLate)).log := by decide
+example : storedCnt (run exW0 (exRacePre ++ exRaceLate)).log 2 0 = 0 ∧
+    lookup ((run exW0 (exRacePre ++ exRaceLate)).hosts 2).store 0 = none :=
+  let r := c07_no_resurrection_race exW0 exFresh exRacePre exRaceLate 2 0 0 (by decide) (by decide) (by decide)
+  ⟨r.1, r.2.2⟩
+
+/-- a store job stopped between `buf.close()` and the announce callback: the copy exists, nothing is announced
+yet, the balance of `c07_announced_once` counts the job; the next stage announces; the executor forwards -/
+def exStaged : List Op := [.tick 1 [.msg (.cmd exT)] [], .job 1 0, .tick 2 [.frame 0 false] [], .jobstep 2 0 .none, .jobstep 2 0 .none]
+example : storedCnt (run exW0 exStaged).log 2 0 = 1 ∧ annCnt (run exW0 exStaged).log 2 0 = 0 ∧
+    ((run exW0 exStaged).hosts 2).futs.countP (atStage2 0) = 1 := by decide
+example : annCnt (run exW0 (exStaged ++ [.jobstep 2 0 .none])).log 2 0 = 1 ∧
+    pubPending ((run exW0 (exStaged ++ [.jobstep 2 0 .none])).hosts 2).mbox 0 = 1 ∧
+    ctrlPubCnt (run exW0 (exStaged ++ [.jobstep 2 0 .none, .etick 2 []])).log 2 0 = 1 ∧
+    0 ∈ ((run exW0 (exStaged ++ [.jobstep 2 0 .none, .etick 2 []])).hosts 2).published := by decide
+/-- … or the announce callback raises: stored, reported, never announced -/
+example : annFailCnt (run exW0 (exStaged ++ [.jobstep 2 0 .fail])).log 2 0 = 1 ∧
+    annCnt (run exW0 (exStaged ++ [.jobstep 2 0 .fail, .tick 2 [] [], .etick 2 []])).log 2 0 = 0 ∧
+    ctrlFailCnt (run exW0 (exStaged ++ [.jobstep 2 0 .fail, .tick 2 [] [], .etick 2 []])).log 2 = 1 := by decide
+
+/-- memory pressure: allocate times out; the failure is reported, nothing is stored; a later redundant transfer
+stores the dataset -/
+def exPressure : List Op := [.tick 1 [.msg (.cmd exT)] [], .job 1 0, .tick 2 [.frame 0 false] [], .jobstep 2 0 .fail]
+example : Event.storeFail 2 0 0 0 ∈ (run exW0 exPressure).log ∧ storedCnt (run exW0 exPressure).log 2 0 = 0 ∧
+    failCnt (run exW0 exPressure).log 2 = 1 ∧ failPending ((run exW0 exPressure).hosts 2).mbox = 1 := by decide
+example : ctrlFailCnt (run exW0 (exPressure ++ [.etick 2 []])).log 2 = 1 :=
+  by have := c07_failures_forwarded exW0 exFresh (exPressure ++ [.etick 2 []]) 2; revert this; decide
+
+/-- the Future of a send job raised (`closeExc`): reported by the next `maybe_clean`, never retried -/
+example : Event.futFail 1 (.cmd ⟨1, 2, 2, 0, 0⟩) ∈ (run exW0 exExc).log ∧ resubmitCnt (run exW0 exExc).log 1 0 = 0 ∧
+    lookup ((run exW0 exExc).hosts 1).awaiting 0 = some (⟨1, 2, 2, 0, 0⟩, none) := by decide
+
+/-- retries are per transfer index: transfers 0 and 2 from host 1, the payload of 0 is lost, 2 is delivered and
+confirmed; the next iteration after the grace period re-sends 0 (a "highest confirmed index" rule would not) -/
+def exTwo : List Op :=
+  [.tick 1 [.msg (.cmd exT), .msg (.cmd exR)] [], .job 1 0, .job 1 0, .drop 0, .tick 1 [] [],
+   .tick 2 [.frame 0 false] [], .job 2 0, .tick 1 [.frame 0 false] [], .adv 4001]
+example : 2 ∈ ((run exW0 exTwo).hosts 1).acks ∧ 0 ∉ ((run exW0 exTwo).hosts 1).acks ∧
+    lookup ((run exW0 exTwo).hosts 1).awaiting 0 = some (exT, some 1) := by decide
+example : resubmitCnt (run exW0 exTwo).log 1 0 < resubmitCnt (run exW0 (exTwo ++ [.tick 1 [] []])).log 1 0 :=
+  (c07_retry_until_acked exW0 exFresh exTwo 1).1 0 exT 1 [] (by decide) (by decide) (by decide) (by decide)
+    (by decide) (by decide) (by decide) (by decide)
+
+/-- the executor's filter: host 1 computed dataset 0 itself (`published` at the start), the purge is forwarded -/
+def exW1 : World := { hosts := fun h => if h = 1 then { store := [(0, "aa", "df0")], published := [0] } else {} }
+example : Event.purgeFwd 1 0 ∈ (run exW1 [.etick 1 [0]]).log ∧
+    Event.purged 1 0 0 ∈ (run exW1 [.etick 1 [0], .tick 1 [] []]).log := by decide
+example : Event.purgeDropped 2 0 ∈ (run exW0 exDropped).log ∧ storedCnt (run exW0 exDropped).log 2 0 = 1 := by decide
+
+/-- non-vacuity of `c07_completes_partial`: the state after `exRetry` (payload of transfer 0 dropped, 4001 ms later) -/
+example : lookup ((run exW0 (exRetry ++ completion 1 2 (run exW0 exRetry).net.length)).hosts 2).store 0 = some ("aa", "df0") ∧
+    Event.announced 2 0 0 ∈ (run exW0 (exRetry ++ completion 1 2 (run exW0 exRetry).net.length)).log ∧
+    0 ∈ ((run exW0 (exRetry ++ completion 1 2 (run exW0 exRetry).net.length)).hosts 1).acks :=
+  c07_completes_partial exW0 exRetry 1 2 0 exT 1 "aa" "df0" (by decide) (by decide) (by decide) rfl rfl rfl rfl
+    (by decide) (by decide) (by decide) (by decide) (by decide) (by decide) (by decide) (by decide) (by decide)
+    (by decide) (by decide) (by decide) (by decide) (by decide) (by decide) (by decide) (by decide) (by decide)
 
 end EkwVerif.Transfer
